@@ -86,6 +86,9 @@ def WordList.lookup (wl : WordList) (key : PyStr) : Option Nat := lookupAux key 
 /-- `self[key]` for a non-negative `int` key (`self.words[key]`); `none` = IndexError -/
 def WordList.word (wl : WordList) (i : Nat) : Option PyStr := wl.words[i]?
 
+/-- `key in wl` (`WordList.__contains__`: `key in self.words` — full words only, no prefixes) -/
+def WordList.contains (wl : WordList) (key : PyStr) : Bool := wl.words.contains key
+
 /-- `str.lower()` restricted to ASCII.  `normalize` is only reached (in `from_mnemonic`) after
     `mnemonic_to_bytes` has looked every word up successfully, i.e. for keys of the table. -/
 def asciiLower (s : PyStr) : PyStr := s.map fun c => if 65 ≤ c ∧ c ≤ 90 then c + 32 else c
@@ -228,6 +231,49 @@ def PBKDF2.reads (prf : Bytes → Bytes → Bytes) : PBKDF2 → List Nat → Opt
     match st.read prf n with
     | none => none
     | some (out, st') => (PBKDF2.reads prf st' ns).map (out :: ·)
+
+/-- `binascii.b2a_hex(b).decode("us-ascii")`: lower-case hex digits as code points -/
+def hexOf : Bytes → PyStr
+  | [] => []
+  | b :: r =>
+    let d := fun (n : Nat) => if n < 10 then 48 + n else 87 + n
+    d (b.toNat / 16) :: d (b.toNat % 16) :: hexOf r
+
+/-- PBKDF2.hexread(octets): `b2a_hex(self.read(octets))` -/
+def PBKDF2.hexread (prf : Bytes → Bytes → Bytes) (st : PBKDF2) (n : Nat) : Option (PyStr × PBKDF2) :=
+  (st.read prf n).map fun (b, st') => (hexOf b, st')
+
+/-- one call on a `PBKDF2` object -/
+inductive PbOp where
+  | read (n : Nat)
+  | hexread (n : Nat)
+  | close
+deriving DecidableEq, Repr
+
+/-- what one call returns: key bytes, a hex string, `None` (close), or an exception -/
+inductive PbOut where
+  | bytes (b : Bytes)
+  | hex (s : PyStr)
+  | unit
+  | raised
+deriving DecidableEq, Repr
+
+/-- a history of calls on ONE object.  The state is `none` once `close()` has run (`self.closed`; the
+    attributes are deleted): `read` then raises ValueError, a second `close()` does nothing.  A `read` that
+    raises OverflowError leaves the object unchanged (buffer and block counter are assigned after the loop). -/
+def PBKDF2.run (prf : Bytes → Bytes → Bytes) : Option PBKDF2 → List PbOp → List PbOut
+  | _, [] => []
+  | none, .close :: r => .unit :: PBKDF2.run prf none r
+  | none, _ :: r => .raised :: PBKDF2.run prf none r
+  | some _, .close :: r => .unit :: PBKDF2.run prf none r
+  | some st, .read n :: r =>
+    match st.read prf n with
+    | none => .raised :: PBKDF2.run prf (some st) r
+    | some (b, st') => .bytes b :: PBKDF2.run prf (some st') r
+  | some st, .hexread n :: r =>
+    match st.hexread prf n with
+    | none => .raised :: PBKDF2.run prf (some st) r
+    | some (h, st') => .hex h :: PBKDF2.run prf (some st') r
 
 /-- `PBKDF2(passphrase, salt, iterations, …).read(n)` -/
 def pbkdf2Vendored (prf : Bytes → Bytes → Bytes) (passphrase salt : Bytes) (iterations n : Nat) :
